@@ -60,6 +60,9 @@ type c09Case struct {
 	// Transport: "" = the request is handed to HandleRequest as built; binary | xml | json = it first travels as the
 	// socket server and the HTTP handler receive it: encoded, then decoded by the library into a fresh RequestMessage
 	Transport string `json:"request_travels_as,omitempty"`
+	// CustomDiscover: the application has registered a route of its own for Discover Versions (which then takes the place of
+	// the built-in answer): answers | fails (returns an error) | panics. An operation handler like any other.
+	CustomDiscover string `json:"application_discover_versions_route,omitempty"`
 }
 
 type stringer struct{ s string }
@@ -194,6 +197,17 @@ func c09Run(c c09Case) (sig string, err error) {
 		other.SetSupportedProtocolVersions(parseVersions(o)...)
 	}
 	exec := newExecutor(log, c.PanicVal, c.PlainErr)
+	if c.CustomDiscover != "" {
+		exec.Route(kmip.OperationDiscoverVersions, kmipserver.HandleFunc(func(ctx context.Context, req *payloads.DiscoverVersionsRequestPayload) (*payloads.DiscoverVersionsResponsePayload, error) {
+			switch c.CustomDiscover {
+			case "fails":
+				return nil, kmipserver.Errorf(kmip.ResultReasonPermissionDenied, "discovery is not for everybody")
+			case "panics":
+				panicWith(c.PanicVal)
+			}
+			return &payloads.DiscoverVersionsResponsePayload{ProtocolVersion: []kmip.ProtocolVersion{kmip.V1_4}}, nil
+		}))
+	}
 	if len(c.Supported) > 0 {
 		exec.SetSupportedProtocolVersions(parseVersions(c.Supported)...)
 	}
@@ -302,14 +316,14 @@ func c09Run(c c09Case) (sig string, err error) {
 		if invoked {
 			wantCalls = append(wantCalls, i)
 		}
-		ok := o == oSuccess || o == oDiscover
+		ok := o == oSuccess || (o == oDiscover && (c.CustomDiscover == "" || c.CustomDiscover == "answers"))
 		if ok != (it.ResultStatus == kmip.ResultStatusSuccess) {
 			return "wrong-status:" + o, fmt.Errorf("item %d with outcome %s has status %v", i, o, it.ResultStatus)
 		}
 		if !ok && it.ResultStatus != kmip.ResultStatusOperationFailed {
 			return "wrong-status:" + o, fmt.Errorf("item %d with outcome %s has status %v", i, o, it.ResultStatus)
 		}
-		if o == oDiscover {
+		if o == oDiscover && ok {
 			// (the executor answers with a value of the request payload's Go type, which has the same wire form: not this property's business)
 			if it.ResponsePayload == nil || it.ResponsePayload.Operation() != kmip.OperationDiscoverVersions {
 				return "wrong-payload", fmt.Errorf("item %d (Discover Versions) carries payload %#v", i, it.ResponsePayload)
@@ -462,6 +476,7 @@ func TestC09Random(t *testing.T) {
 			PlainErr:   rapid.SampledFrom(plainErrorKinds).Draw(rt, "plainerr"),
 			Transport:  rapid.SampledFrom([]string{"", "", "binary", "binary", "xml", "json"}).Draw(rt, "transport"),
 		}
+		c.CustomDiscover = rapid.SampledFrom([]string{"", "", "", "answers", "fails", "panics"}).Draw(rt, "custom-discover")
 		if rapid.IntRange(0, 2).Draw(rt, "mostlysuccess") == 0 {
 			for i := range c.Outcomes {
 				if rapid.IntRange(0, 3).Draw(rt, "flip") != 0 {
